@@ -5,6 +5,7 @@
 (*   Create     T                                                           *)
 (*   ListOp     obj, attr, op (record of EFPyList), exc                     *)
 (*   SetList    obj, attr, new        SetLink  obj, attr, new               *)
+(*   GroupSet   changes (several link / list changes in one update)        *)
 (*   SelfDelete obj, exc                                                    *)
 (*   CrossLink  what, exc, two_systems   (an attempt to link an object that *)
 (*              belongs to another system)                                  *)
@@ -75,6 +76,16 @@ CheckSet(e, T, kind) ==
     IN  /\ IF e.exc # "none" THEN Fail(e, "valid-link-edit-raised", e.exc) ELSE TRUE
         /\ Common(e, T2, expected)
 
+(* one ModelingUpdate carrying several link / list changes (possibly to the same target) *)
+GroupChanges(e) == [n \in DOMAIN e.changes |->
+    [kind |-> e.changes[n].kind, obj |-> e.changes[n].obj, attr |-> e.changes[n].attr,
+     new |-> IF e.changes[n].kind = "link" THEN e.changes[n].news ELSE e.changes[n].newl]]
+CheckGroup(e, T) ==
+    LET T2 == Topo(e.T2)
+        expected == ApplyAll(T, GroupChanges(e), 1)
+    IN  /\ IF e.exc # "none" THEN Fail(e, "valid-link-edit-raised", e.exc) ELSE TRUE
+        /\ Common(e, T2, expected)
+
 CheckDelete(e, T) ==
     LET T2 == Topo(e.T2)
         referenced == ContainersOf(T, e.obj) # {}
@@ -97,6 +108,7 @@ Step ==
             [] e.ev = "ListOp" -> CheckListOp(e, T)
             [] e.ev = "SetList" -> CheckSet(e, T, "list")
             [] e.ev = "SetLink" -> CheckSet(e, T, "link")
+            [] e.ev = "GroupSet" -> CheckGroup(e, T)
             [] e.ev = "SelfDelete" -> CheckDelete(e, T)
             [] e.ev = "CrossLink" -> CheckCross(e, T)
        /\ cur' = [t \in DOMAIN cur \cup {e.tid} |-> IF t = e.tid THEN Topo(e.T2) ELSE cur[t]]
